@@ -9,6 +9,12 @@
 // assumption, stated in checks.d/C10.json).  A fault switch makes the contract misbehave
 // (revert, silently do nothing, credit one unit short, fail every call) so that the keeper's
 // balance re-checks and failure paths are exercised.
+//
+// The beacon contract of the ERC20 proxies (UpgradeableBeacon.sol) lives at BeaconAddr: it is
+// owned by the token module account, `upgradeTo(newImplementation)` reverts for any other caller
+// and for an implementation address without code, otherwise it records the new implementation.
+// Addresses with code: the implementation contracts I<n> (ImplAddr), the contracts created by the
+// module account, and the beacon itself.
 package token
 
 import (
@@ -36,21 +42,47 @@ type EVM struct {
 	ak     *authkeeper.AccountKeeper
 	ledger map[common.Address]map[common.Address]*big.Int // contract -> holder -> balance
 	Fault  string
+	Impl   common.Address // the beacon's current implementation
+	Owner  common.Address // the beacon's owner (the token module account)
 }
 
+// BeaconAddr is where the harness EVM keeps the beacon contract (params.Beacon points here).
+var BeaconAddr = common.HexToAddress(beaconAddr)
+
+// ImplAddr is the n-th implementation contract (an address with code).
+func ImplAddr(n int) common.Address { return common.BigToAddress(big.NewInt(int64(0x1A000 + n))) }
+
+// nImpl bounds the implementation contracts that exist.
+const nImpl = 64
+
 func NewEVM() *EVM {
-	return &EVM{ledger: map[common.Address]map[common.Address]*big.Int{}, Fault: "none"}
+	return &EVM{ledger: map[common.Address]map[common.Address]*big.Int{}, Fault: "none", Impl: ImplAddr(0)}
 }
 
 type evmSnap struct {
 	ledger map[common.Address]map[common.Address]*big.Int
 	fault  string
+	impl   common.Address
 }
 
 // Reset clears all contracts (a new history).
 func (e *EVM) Reset() {
 	e.ledger = map[common.Address]map[common.Address]*big.Int{}
 	e.Fault = "none"
+	e.Impl = ImplAddr(0)
+}
+
+// HasCode: is there a contract at the address?
+func (e *EVM) HasCode(a common.Address) bool {
+	if a == BeaconAddr || e.HasContract(a) {
+		return true
+	}
+	for n := 0; n < nImpl; n++ {
+		if a == ImplAddr(n) {
+			return true
+		}
+	}
+	return false
 }
 
 func (e *EVM) Snapshot() evmSnap {
@@ -62,12 +94,13 @@ func (e *EVM) Snapshot() evmSnap {
 		}
 		cp[c] = mm
 	}
-	return evmSnap{ledger: cp, fault: e.Fault}
+	return evmSnap{ledger: cp, fault: e.Fault, impl: e.Impl}
 }
 
 func (e *EVM) Restore(s evmSnap) {
 	e.ledger = s.ledger
 	e.Fault = s.fault
+	e.Impl = s.impl
 }
 
 func (e *EVM) HasContract(c common.Address) bool { _, ok := e.ledger[c]; return ok }
@@ -154,6 +187,9 @@ func (e *EVM) ApplyMessage(ctx sdk.Context, msg core.Message, _ vm.EVMLogger, co
 		return &tokentypes.Result{Hash: addr.Hex()}, nil
 	}
 	c := *msg.To()
+	if c == BeaconAddr {
+		return e.beaconCall(msg)
+	}
 	book, ok := e.ledger[c]
 	if !ok {
 		return nil, errors.New("evm: no contract at address")
@@ -205,4 +241,38 @@ func (e *EVM) ApplyMessage(ctx sdk.Context, msg core.Message, _ vm.EVMLogger, co
 		return &tokentypes.Result{Hash: c.Hex()}, nil
 	}
 	return nil, errors.New("evm: unknown method " + method.Name)
+}
+
+// beaconCall executes a call of the beacon contract (UpgradeableBeacon.sol).
+func (e *EVM) beaconCall(msg core.Message) (*tokentypes.Result, error) {
+	data := msg.Data()
+	abi := contracts.BeaconContract.ABI
+	if len(data) < 4 {
+		return reverted(), nil
+	}
+	method, err := abi.MethodById(data[0:4])
+	if err != nil {
+		return reverted(), nil
+	}
+	args, err := method.Inputs.Unpack(data[4:])
+	if err != nil {
+		return nil, err
+	}
+	switch method.Name {
+	case contracts.MethodUpgradeTo:
+		impl := args[0].(common.Address)
+		// onlyOwner; _setImplementation: revert BeaconInvalidImplementation when code.length == 0
+		if msg.From() != e.Owner || !e.HasCode(impl) {
+			return reverted(), nil
+		}
+		e.Impl = impl
+		return &tokentypes.Result{Hash: BeaconAddr.Hex()}, nil
+	case "implementation":
+		ret, err := method.Outputs.Pack(e.Impl)
+		if err != nil {
+			return nil, err
+		}
+		return &tokentypes.Result{Hash: BeaconAddr.Hex(), Ret: ret}, nil
+	}
+	return reverted(), nil
 }
